@@ -46,6 +46,7 @@ inline std::string unescape(std::string const &s)
       else if (c == 's') r += ' ';
       else if (c == 't') r += '\t';
       else if (c == 'r') r += '\r';
+      else if (c == 'e') { /* empty word marker */ }
       else if (c == 'x' && i + 2 < s.size()) {
         r += (char) std::strtol(s.substr(i + 1, 2).c_str(), nullptr, 16); i += 2;
       }
